@@ -13,7 +13,7 @@ import (
 
 func init() {
 	props["C14"] = c14
-	floors["C14"] = map[string]int{"C14.R1": 8, "C14.R2": 12, "C14.R3": 3, "C14.R4": 2, "C14.R5": 5, "C14.R6": 5, "C14.R7": 3}
+	floors["C14"] = map[string]int{"C14.R1": 8, "C14.R2": 12, "C14.R3": 3, "C14.R4": 2, "C14.R5": 5, "C14.R6": 5, "C14.R7": 4}
 }
 
 // stringSliceVar extracts the string literals of a package-level []string
@@ -163,6 +163,19 @@ func c14(r *Report) {
 		}
 		r.Decide("flow", "M/httpspec.NewStack: the inner group is on both sides", innerReq >= 0 && innerRes, "user modifiers see requests and responses", "the inner group is missing on one side", ns.Pos())
 		r.Decide("path", "M/httpspec.NewStack: the via check precedes the inner group on the request side", viaReq >= 0 && innerReq > viaReq, fmt.Sprintf("order %v", reqSeq), "a looped request reaches user modifiers before the loop is detected", ns.Pos())
+		// the request is stripped of the client's hop-by-hop headers before the
+		// proxy adds its own: a client naming Via or X-Forwarded-For in its
+		// Connection header must not be able to have the proxy's entries removed
+		idx := func(prefix string) int {
+			for i, s := range reqSeq {
+				if strings.HasPrefix(s, prefix) {
+					return i
+				}
+			}
+			return -1
+		}
+		hbh := idx("M/header.NewHopByHopModifier")
+		r.Decide("path", "M/httpspec.NewStack: hop-by-hop stripping precedes the modifiers that add Via and X-Forwarded-*", hbh >= 0 && hbh < idx("M/header.NewViaModifier") && hbh < idx("M/header.NewForwardedModifier"), fmt.Sprintf("order %v", reqSeq), fmt.Sprintf("the hop-by-hop modifier runs after a modifier that adds the proxy's own headers (order %v): a Connection header naming Via or X-Forwarded-For strips what the proxy just added", reqSeq), ns.Pos())
 		// the outer group must not swallow the via error differently per side: it is a plain (non-aggregating) fifo
 		r.Decide("flow", "M/httpspec.NewStack: via name comes from the caller", len(plainCalls(ns, "M/header.NewViaModifier")) == 1 && plainCalls(ns, "M/header.NewViaModifier")[0].Call.Args[0] == ssa.Value(ns.Params[0]), "NewViaModifier(via)", "the Via entry does not carry the configured proxy name", ns.Pos())
 	})
@@ -509,6 +522,44 @@ func c14(r *Report) {
 					if isFreshErr(l) {
 						nerr++
 					}
+				}
+			}
+		}
+		// a single Content-Length line can carry conflicting values ("42, 32"):
+		// the mismatch test must run whenever there is at least one line
+		isLenOfCL := func(v ssa.Value) bool {
+			c, isC := v.(*ssa.Call)
+			if !isC {
+				return false
+			}
+			bi, isB := c.Call.Value.(*ssa.Builtin)
+			if !isB || bi.Name() != "len" {
+				return false
+			}
+			return anyIn(w.backSlice(c.Call.Args[0], flowOpt{}), func(x ssa.Value) bool {
+				lk, isL := x.(*ssa.Lookup)
+				if !isL {
+					return false
+				}
+				k, isK := constString(lk.Index)
+				return isK && k == "Content-Length"
+			})
+		}
+		for _, ret := range returns(bf) {
+			fresh := false
+			for _, v := range retVals(ret, 0) {
+				for _, l := range resolveAll(v) {
+					if isFreshErr(l) {
+						fresh = true
+					}
+				}
+			}
+			if !fresh {
+				continue
+			}
+			for _, ce := range ctrlEdges(ret.Block()) {
+				if rel, adm := constCmpAdmits(ce, isLenOfCL, 1); rel {
+					r.Decide("path", "framing modifier: Content-Length values are compared even when the header has a single line", adm, "the guard on the number of Content-Length lines admits one line", "the mismatch test is skipped for a single Content-Length line: conflicting values folded into one line (\"42, 32\") are not flagged", ce.If.Pos())
 				}
 			}
 		}
